@@ -21,6 +21,13 @@ func HarnessC05Graph() {
 	for i := 0; i < n; i++ {
 		ds = append(ds, symTriple("d", true))
 	}
+	if verif.Param("WIDE", 0) == 1 {
+		// component bytes over the printable 7-bit range instead of {a,b}
+		ds = nil
+		for i := 0; i < n; i++ {
+			ds = append(ds, wideTriple("w"))
+		}
+	}
 	g1.AddTriples(ctx, triples(ds))
 	var buf bytes.Buffer
 	var wn, rn int
@@ -50,6 +57,24 @@ func HarnessC05Graph() {
 	}
 	lst, _ := listing(g2)
 	verif.Assert(len(lst) == wn, "C05/graph/nothing-else-read-back")
+}
+
+// wideTriple: /t<s> "p"@[] with an object that is a node /t<o> or a text "o",
+// s, p, o single bytes over the printable 7-bit range (without the characters
+// the documented domain excludes: '<' '>' in node ids, '"' in text).
+func wideTriple(name string) *spec {
+	sp := &spec{sb: verif.Byte(name + ".s"), pb: verif.Byte(name + ".p"), ob: verif.Byte(name + ".o")}
+	pr := func(c byte) bool { return verif.And(c > 0x20, c < 0x7f) }
+	verif.Assume(verif.And(pr(sp.sb), verif.And(pr(sp.pb), pr(sp.ob))))
+	verif.Assume(verif.And(verif.And(sp.sb != '<', sp.sb != '>'), verif.And(sp.pb != '"', sp.pb != '\\')))
+	sp.ok = verif.Choice(name+".ok", 2)
+	if sp.ok == 0 {
+		verif.Assume(verif.And(sp.ob != '<', sp.ob != '>'))
+	} else {
+		verif.Assume(verif.And(sp.ob != '"', sp.ob != '\\'))
+	}
+	sp.t = sp.build()
+	return sp
 }
 
 // C15 (c): the line-oriented reader loads exactly the triples on the lines
